@@ -1119,6 +1119,30 @@ func (s *TxStore) Rollback(tx mwdb.DBTransaction, height uint64) error {
 
 func (s *TxStore) removableTxForRemoveWallet(msgTx *wire.MsgTx, scriptHashSet map[string]struct{}) (bool, error) {
 
+	// A transaction that spends a coin of another managed wallet must be kept: that wallet's
+	// debit refers to it, and a rollback of its block un-spends the coin through the tx record.
+	if !blockchain.IsCoinBaseTx(msgTx) {
+		for _, txIn := range msgTx.TxIn {
+			prevTx, err := s.chainFetcher.FetchTxBySha(&txIn.PreviousOutPoint.Hash)
+			if err != nil {
+				return false, err
+			}
+			if prevTx == nil || int64(txIn.PreviousOutPoint.Index) >= int64(len(prevTx.TxOut)) {
+				continue
+			}
+			ps, err := utils.ParsePkScript(prevTx.TxOut[txIn.PreviousOutPoint.Index].PkScript, s.chainParams)
+			if err != nil {
+				continue
+			}
+			if _, ok := scriptHashSet[string(ps.StdScriptAddress())]; ok {
+				continue
+			}
+			if _, err := s.ksmgr.GetManagedAddressByStdAddress(ps.StdEncodeAddress()); err == nil {
+				return false, nil
+			}
+		}
+	}
+
 	for i, txout := range msgTx.TxOut {
 		ps, err := utils.ParsePkScript(txout.PkScript, s.chainParams)
 		if err != nil {
